@@ -79,8 +79,8 @@ type Reader struct {
 // tolerate (it models the implementation's actual grammar): flags/booleans of any
 // value, variant tags >= 2 (nothing decoded), 9-byte integers below 2^56,
 // over-wide compact integers, unordered keys, the unchecked redundant key length,
-// unused bitfield bits, encoder-only bounds, counts larger than the input and
-// short reads of byte strings. Lax "impl" = only these tolerances.
+// unused bitfield bits, encoder-only bounds and short reads of byte strings
+// (a count larger than the input is still reported: it is what reaches make()). Lax "impl" = only these tolerances.
 func (r *Reader) tol() bool { return r.Lax != "" }
 
 type rejectPanic struct{ r *Reject }
@@ -132,12 +132,6 @@ func (r *Reader) Count(path string, elemMin, elemSize int) int {
 	off := r.Pos
 	n := r.CompactInt(path)
 	remain := uint64(len(r.Data) - r.Pos)
-	if r.tol() {
-		if n > 1<<24 {
-			n = 1 << 24 // the element loop ends at the first missing byte anyway
-		}
-		return int(n)
-	}
 	if elemMin > 0 && (n > remain || n*uint64(elemMin) > remain) {
 		panic(rejectPanic{&Reject{Reason: RCountTooBig, Off: off, Path: path,
 			Detail: fmt.Sprintf("count %d x >=%d bytes, %d remain", n, elemMin, remain), Count: n, ElemSize: elemSize}})
